@@ -3,7 +3,7 @@ from hypothesis import strategies as st
 
 from vlib import programs as P
 from vlib.core import CheckFailure, load_corpus, fmt_exc
-from vlib.wsgi import make_environ, call_app, validate
+from vlib.wsgi import make_environ, call_app, validate, call_app_watchdog, Hang
 
 ID = 'C03'
 LEVEL = 'exploration'
@@ -12,10 +12,10 @@ RULE = ('case = handler program (data, interpreted by vlib/programs.py): outcome
         'with / without close and __iter__, real seekable streams already read up to an offset, with / without wsgi.file_wrapper, HTTPResponse / HTTPError returned, raised or yielded first, nested up to 3 deep, '
         'one response object shared by all requests, exception of a generated class (RuntimeError, ValueError, KeyError, Unicode*Error, OSError, StopIteration, a custom class ...) in the handler}; request paths with and without non-ASCII tails; status set on the response or on the returned object from {100,101,102,103,199, '
         '200,201,204,205,299 Custom,304,404,418,500,999}; headers, cookies, optional explicit Content-Length; 0-3 before-hooks (ok / raise / raise a response) and '
-        '0-3 after-hooks; custom error handlers for 404/405/418/500 returning str / bytes / generator or raising; request method GET, HEAD, POST, PUT, DELETE, '
+        '0-3 after-hooks; custom error handlers for 404/405/418/500 returning str / bytes / generator / a response object / the same error again, or raising; a before-hook that rewrites PATH_INFO (routing must see the rewritten path); request method GET, HEAD, POST, PUT, DELETE, '
         'OPTIONS; path hits the route, misses it (404) or uses a verb that is not registered (405). Every program is served three times on one application (later '
         'requests with a longer URL). Oracle: independent PEP 3333 validator (exactly one start_response before the first chunk, status line, header list of '
-        '(str, str) Latin-1 without control characters, chunks are bytes), nothing escapes; empty body for HEAD / 1xx / 204 / 304; a Content-Length the program '
+        '(str, str) Latin-1 without control characters, chunks are bytes), nothing escapes and the request finishes under a 10 s watchdog; empty body for HEAD / 1xx / 204 / 304; a Content-Length the program '
         'did not set on a response that may carry a body equals len(body); every tracked handler iterable whose items reached the framework is closed exactly '
         'once (never twice); handler / hook / first-next failures give 500 and the predicted status otherwise; hook log == before-hooks in registration order '
         'up to the failing one, all before routing (ombott.route absent), handler, then every after-hook once in reverse order. Non-trivial = anything but '
@@ -37,9 +37,9 @@ def case_st(draw):
         'resp_headers': draw(st.lists(st.tuples(st.sampled_from(['X-H', 'Etag', 'Content-Type', 'Vary']), HSAFE), max_size=2)),
         'cookies': draw(st.lists(st.tuples(st.sampled_from(['c1', 'c2']), st.sampled_from(['v', 'a b', 'é'])), max_size=2)),
         'explicit_cl': draw(st.sampled_from([None, None, None, 3, 0])),
-        'before': draw(st.lists(st.sampled_from(['ok', 'ok', 'ok', 'raise', 'raise_response', 'remove_self']), max_size=3)),
+        'before': draw(st.lists(st.sampled_from(['ok', 'ok', 'ok', 'raise', 'raise_response', 'remove_self', 'rewrite_path']), max_size=3)),
         'after': draw(st.lists(st.sampled_from(['ok', 'ok', 'ok', 'remove_self', 'add_after']), max_size=3)),
-        'handlers': draw(st.dictionaries(st.sampled_from(['404', '405', '418', '500']), st.sampled_from(['str', 'bytes', 'gen', 'raise', 'empty']), max_size=2)),
+        'handlers': draw(st.dictionaries(st.sampled_from(['404', '405', '418', '500']), st.sampled_from(['str', 'bytes', 'gen', 'raise', 'empty', 'http_response', 'error_again']), max_size=2)),
         'file_wrapper': draw(st.booleans()),
         'path_tail': draw(st.sampled_from(['', '', '', 'é', '日本', 'über/ü', '%41', 'a b', '\U0001F600'])),
     }
@@ -49,6 +49,7 @@ def serve(case, app_box, reqno):
     """One request of the program on the case's application. Returns (result, hook log, tracked objects, flags)."""
     import ombott
     app = app_box['app']
+    box = app_box
     log = app_box['log']
     del log[:]
     tr = P.Track()
@@ -60,8 +61,14 @@ def serve(case, app_box, reqno):
     extra = {}
     if case['file_wrapper']:
         extra['wsgi.file_wrapper'] = P.ServerFileWrapper
+    if 'rewrite_path' in case['before']:
+        # the client asks for a legacy location; a before_request hook maps it onto the real one (hooks run before routing)
+        box['real_path'] = path
+        path = '/legacy-location/of' + path
     env = make_environ(case['method'], path, qs=qs, extra=extra)
-    r = call_app(app, env)
+    r = call_app_watchdog(app, env, 10)
+    if isinstance(r.escaped, Hang):
+        raise CheckFailure(f'request did not finish within 10 s: {case}')
     return r, list(log), tr
 
 
@@ -100,6 +107,9 @@ def make_app(case):
                 raise ombott.HTTPResponse('from hook', 418)
             if kind == 'remove_self':           # run-once hook (lazy initialisation idiom)
                 app.remove_hook('before_request', hooks[('b', i)])
+            if kind == 'rewrite_path':
+                from vlib.wsgi import path_to_wsgi
+                app.request.environ['PATH_INFO'] = box['real_path']
         hooks[('b', i)] = bh
         app.add_hook('before_request', bh)
 
@@ -126,6 +136,10 @@ def make_app(case):
                 return b'custom bytes'
             if kind == 'empty':
                 return ''
+            if kind == 'http_response':
+                return ombott.HTTPResponse('custom response %s' % code, status=int(code))
+            if kind == 'error_again':
+                return ombott.HTTPError(int(code), 'again')          # a handler that answers with the same error again (a cycle the framework must cut)
 
             def g():
                 yield 'custom '
@@ -142,8 +156,10 @@ def _after_kinds(case):
 
 def predict_status(case):
     h = case['handlers']
+    if any(v == 'error_again' for v in h.values()):
+        return None          # which status a cut cycle ends with is not part of the property (it must end, with one well-formed response)
     for kind in case['before']:
-        if kind == 'remove_self':
+        if kind in ('remove_self', 'rewrite_path'):
             continue
         if kind == 'raise':
             return 500 if h.get('500') != 'raise' else 500
@@ -210,6 +226,8 @@ def check_case(ctx, case):
             if kind in ('raise', 'raise_response'):
                 failed = True
                 break
+            if kind == 'rewrite_path' and False:
+                pass
         alive_b = [i for i in alive_b if not (i in ran_b and case['before'][i] == 'remove_self')]
         if not failed and case['target'] == 'hit':
             want_log.append('handler')
@@ -273,6 +291,15 @@ def run(ctx):
                 for rs in (None, 103, 204, 304, 201):
                     for fw in (False, True):
                         ctx.guarded(check_case, dict(base, out=out, method=method, resp_status=rs, file_wrapper=fw))
+        # error-handler chains: every pair of handler kinds for (the status that occurs, 500)
+        kinds = ['str', 'bytes', 'gen', 'raise', 'empty', 'http_response', 'error_again']
+        for target, code in (('miss', '404'), ('wrongverb', '405')):
+            for k1 in kinds:
+                for k2 in [None] + kinds:
+                    hs = {code: k1}
+                    if k2:
+                        hs['500'] = k2
+                    ctx.guarded(check_case, dict(base, out={'k': 'str', 'v': 'x'}, method='GET', resp_status=None, file_wrapper=False, target=target, handlers=hs, before=[], after=[]))
         ctx.count('outcome_matrix')
     n = 3000 if ctx.tier == 'quick' else 40000
     ctx.hyp(case_st(), check_case, n)
